@@ -248,6 +248,15 @@ pub fn menu(len: u32, cur: &[u8], n: u64, pos: u64) -> Vec<Vec<u8>> {
                 x[4..].copy_from_slice(&c[..]);
                 out.push(x);
             }
+            // (a') both words at once: a degenerate size together with a type the surrounding reader does not expect
+            for sz in [0u32, 1, 7, 8] {
+                for c in [b"free", b"zzzz", b"uuid"] {
+                    let mut x = cur.to_vec();
+                    x[..4].copy_from_slice(&sz.to_be_bytes());
+                    x[4..].copy_from_slice(&c[..]);
+                    out.push(x);
+                }
+            }
             // (b) as a 64-bit number (largesize, 64-bit times/offsets)
             let b64 = u64::from_be_bytes([cur[0], cur[1], cur[2], cur[3], cur[4], cur[5], cur[6], cur[7]]);
             for v in [0u64, 1, 7, 8, 15, 16, 17, 24, b64.wrapping_sub(1), b64.wrapping_add(1), n, n.saturating_sub(pos), n + 1, 0xffff_ffff, 0x1_0000_0000, 0x1_0000_0010, i64::MAX as u64, 1u64 << 63, u64::MAX - 7, u64::MAX] {
